@@ -2,15 +2,24 @@
 from wiregen import *
 import math
 
-def det_tok(xc, yc, angle, aspect, height, conf, custom):
-    return "%s %s %s %s %s %s %s" % (f32tok(xc), f32tok(yc), optf32(angle), f32tok(aspect), f32tok(height), f32tok(conf),
+def det_tok(xc, yc, angle, aspect, height, conf, custom, vis=None):
+    base = "%s %s %s %s %s %s %s" % (f32tok(xc), f32tok(yc), optf32(angle), f32tok(aspect), f32tok(height), f32tok(conf),
                                      "-" if custom is None else str(custom))
+    if vis is None:
+        return base
+    q, feat = vis
+    return base + " %s %d%s" % (optf32(q), len(feat or []), "".join(" " + f32tok(x) for x in (feat or [])))
+
+
+VISUAL = ("visual", "bvisual")
 
 
 class World:
     """a few objects per scene moving around a shared image region"""
-    def __init__(self, rng, nscenes, rotated, region=120.0, dense=False):
+    def __init__(self, rng, nscenes, rotated, region=120.0, dense=False, visual=False):
         self.rng = rng
+        self.visual = visual
+        self.bases = []
         self.rotated = rotated
         self.region = region
         self.scenes = {s: [] for s in range(nscenes)}
@@ -20,9 +29,19 @@ class World:
                 self.scenes[s].append(self.new_obj())
         self.next_custom = 1
 
+    def new_emb(self):
+        r = self.rng
+        if self.bases and r.random() < 0.25:          # a look-alike of an existing object
+            b = r.choice(self.bases)
+            e = [v + r.uniform(-0.05, 0.05) for v in b]
+        else:
+            e = [r.uniform(-1, 1) for _ in range(4)]
+        self.bases.append(e)
+        return e
+
     def new_obj(self):
         r = self.rng
-        return {"x": r.uniform(0, self.region), "y": r.uniform(0, self.region), "vx": r.uniform(-6, 6), "vy": r.uniform(-6, 6),
+        return {"emb": self.new_emb() if self.visual else None, "x": r.uniform(0, self.region), "y": r.uniform(0, self.region), "vx": r.uniform(-6, 6), "vy": r.uniform(-6, 6),
                 "h": r.uniform(15, 40), "a": r.choice([0.5, 1.0, 1.5]), "ang": (r.uniform(-1, 1) if self.rotated and r.random() < .7 else None),
                 "alive": True}
 
@@ -38,15 +57,27 @@ class World:
             conf = r.choice([1.0, 0.9, 0.5, 0.04, r.uniform(0.05, 1.0)])
             cu = None if r.random() < 0.5 else self.next_custom
             self.next_custom += 1
-            dets.append((o["x"], o["y"], o["ang"], o["a"], o["h"] * r.uniform(0.95, 1.05), conf, cu))
+            dets.append((o["x"], o["y"], o["ang"], o["a"], o["h"] * r.uniform(0.95, 1.05), conf, cu) + self.vis_part(o))
             if r.random() < 0.08:                                                                  # near-duplicate detection of the same object
-                dets.append((o["x"] + r.uniform(-2, 2), o["y"] + r.uniform(-2, 2), o["ang"], o["a"], o["h"], r.uniform(0.3, 1.0), None))
+                dets.append((o["x"] + r.uniform(-2, 2), o["y"] + r.uniform(-2, 2), o["ang"], o["a"], o["h"], r.uniform(0.3, 1.0), None) + self.vis_part(o))
         if r.random() < 0.1:
-            dets.append((r.uniform(0, self.region), r.uniform(0, self.region), None, 1.0, r.uniform(10, 30), 1.0, None))  # clutter
+            dets.append((r.uniform(0, self.region), r.uniform(0, self.region), None, 1.0, r.uniform(10, 30), 1.0, None) + self.vis_part(None))  # clutter
         if r.random() < 0.05 and objs:
             objs.pop(r.randrange(len(objs)))
         r.shuffle(dets)
         return dets
+
+    def vis_part(self, o):
+        """(quality, feature) of a detection of object o — empty tuple for the SORT kinds"""
+        if not self.visual:
+            return ()
+        r = self.rng
+        q = r.choice([None, 0.2, 0.45, 0.55, 0.69, 0.71, 0.9, r.uniform(0, 1)])
+        if r.random() < 0.15:
+            return ((q, None),)
+        emb = o["emb"] if o is not None else [r.uniform(-1, 1) for _ in range(4)]
+        noise = r.choice([0.01, 0.01, 0.05, 0.3])
+        return ((q, [f32(v + r.uniform(-noise, noise)) for v in emb]),)
 
 
 def new_line(rng, kind, shards=None, vshards=None, hist=None, max_idle=None, method=None, minconf=None, constraints=None):
@@ -63,7 +94,17 @@ def new_line(rng, kind, shards=None, vshards=None, hist=None, max_idle=None, met
         constraints = [] if rng.random() < 0.6 else [(g, rng.choice([0.3, 0.6, 1.0, 2.0])) for g in sorted(rng.sample(range(1, 5), rng.randint(1, 2)))]
     cons = constraints or []
     c = " ".join([str(len(cons))] + ["%d %s" % (g, f32tok(l)) for g, l in cons])
-    return "trk new %s %d %d %d %d %s %s %s" % (kind, shards, vshards, hist, max_idle, m, f32tok(minconf), c)
+    line = "trk new %s %d %d %d %d %s %s %s" % (kind, shards, vshards, hist, max_idle, m, f32tok(minconf), c)
+    if kind in VISUAL:
+        vk = rng.choice([("euclid", rng.choice([0.15, 0.3, 0.6])), ("cosine", rng.choice([0.9, 0.98, 0.3]))])
+        max_obs = rng.randint(1, 8)
+        min_len = rng.randint(1, min(3, max_obs))
+        own = rng.random() < 0.3
+        line += " V %s %s %d %d %d %s %s %s %s %s" % (vk[0], f32tok(vk[1]), rng.randint(1, 3), min_len, max_obs,
+                                                      f32tok(rng.choice([0.0, 0.3, 0.5])), f32tok(rng.choice([0.0, 0.5, 0.7])),
+                                                      f32tok(rng.choice([0.0, 100.0, 400.0])),
+                                                      f32tok(rng.choice([0.3, 0.6]) if own else 0.0), f32tok(rng.choice([0.3, 0.6]) if own else 0.0))
+    return line
 
 
 def predict_line(scenes):
@@ -71,13 +112,13 @@ def predict_line(scenes):
     parts = ["trk predict %d" % len(scenes)]
     for s, dets in scenes:
         parts.append("%d %d" % (s, len(dets)))
-        parts += [det_tok(*d) for d in dets]
+        parts += [det_tok(*d[:7], vis=(d[7] if len(d) > 7 else None)) for d in dets]
     return " ".join(parts)
 
 
 def history(rng, kind, nsteps, nscenes=None, api_mix=True, **kw):
     nscenes = nscenes or rng.randint(1, 3)
-    world = World(rng, nscenes, rotated=rng.random() < 0.4, dense=rng.random() < 0.3)
+    world = World(rng, nscenes, rotated=rng.random() < 0.4, dense=rng.random() < 0.3, visual=kind in VISUAL)
     lines = [new_line(rng, kind, **kw)]
     batch = kind.startswith("b")
     for _ in range(nsteps):
@@ -102,8 +143,41 @@ def history(rng, kind, nsteps, nscenes=None, api_mix=True, **kw):
     return lines
 
 
+def is_visual(lines):
+    for l in lines:
+        t = l.split()
+        if t[1] == "new":
+            return t[2] in VISUAL
+    return False
+
+
+def split_predict(t, visual):
+    """tokens of a `trk predict` line -> [(scene, [det token lists])]"""
+    ns = int(t[2]); pos = 3; out = []
+    for _ in range(ns):
+        sc = int(t[pos]); n = int(t[pos + 1]); pos += 2
+        dets = []
+        for _ in range(n):
+            k = 7
+            if visual:
+                k = 9 + int(t[pos + 8])
+            dets.append(t[pos:pos + k]); pos += k
+        out.append((sc, dets))
+    return out
+
+
+def join_predict(scenes):
+    parts = ["trk predict %d" % len(scenes)]
+    for sc, dets in scenes:
+        parts.append("%d %d" % (sc, len(dets)))
+        for d in dets:
+            parts.append(" ".join(d))
+    return " ".join(parts)
+
+
 def project(lines, scene):
     """the sub-history that concerns `scene` only (global operations kept)"""
+    vis = is_visual(lines)
     out = []
     for l in lines:
         t = l.split()
@@ -112,25 +186,20 @@ def project(lines, scene):
         elif t[1] in ("skip", "idle", "epoch"):
             if int(t[2]) == scene: out.append(l)
         elif t[1] == "predict":
-            ns = int(t[2]); pos = 3; keep = []
-            for _ in range(ns):
-                sc = int(t[pos]); n = int(t[pos + 1])
-                body = t[pos:pos + 2 + 7 * n]
-                pos += 2 + 7 * n
-                if sc == scene: keep = body
+            keep = [(sc, d) for sc, d in split_predict(t, vis) if sc == scene]
             if keep:
-                out.append("trk predict 1 " + " ".join(keep))
+                out.append(join_predict(keep))
     return out
 
 
 def scenes_of(lines):
+    vis = is_visual(lines)
     s = set()
     for l in lines:
         t = l.split()
         if t[1] == "predict":
-            ns = int(t[2]); pos = 3
-            for _ in range(ns):
-                s.add(int(t[pos])); pos += 2 + 7 * int(t[pos + 1])
+            for sc, _ in split_predict(t, vis):
+                s.add(sc)
     return sorted(s)
 
 
@@ -148,6 +217,7 @@ def with_projections(lines):
 
 def unbatch(lines):
     """the same history for the corresponding simple tracker: every scene of a batch gets its own call"""
+    vis = is_visual(lines)
     out = []
     for l in lines:
         t = l.split()
@@ -155,12 +225,8 @@ def unbatch(lines):
             t[2] = {"bsort": "sort", "bvisual": "visual"}.get(t[2], t[2])
             out.append(" ".join(t))
         elif t[1] == "predict":
-            ns = int(t[2]); pos = 3
-            for _ in range(ns):
-                n = int(t[pos + 1])
-                body = t[pos:pos + 2 + 7 * n]
-                pos += 2 + 7 * n
-                out.append("trk predict 1 " + " ".join(body))
+            for sc, dets in split_predict(t, vis):
+                out.append(join_predict([(sc, dets)]))
         elif t[1] == "consumer":
             continue
         else:
